@@ -18,6 +18,7 @@ int main(int argc, char **argv) {
     mprotect(guard + pg, pg, PROT_NONE);
     while (std::getline(std::cin, line)) {
         std::vector<std::string> f = split_ws(line);
+        case_begin(f.empty() ? std::string("?") : f[0]);
         if (f.size() < 3) { printf("%s BAD\n", f.empty() ? "?" : f[0].c_str()); continue; }
         const std::string &id = f[0], &op = f[1];
         if (op == "s2t") {
@@ -64,6 +65,7 @@ int main(int argc, char **argv) {
             printf("%s L%s\n", id.c_str(), out.c_str());
         } else printf("%s BAD\n", id.c_str());
         fflush(stdout);
+        case_end();
     }
     for (int i = 0; i < 5; i++) if (faces[i]) gr_face_destroy(faces[i]);
     return 0;
